@@ -46,6 +46,24 @@ def _accepted(regs):
     return t
 
 
+def _join(g, p):
+    """path.Join(g, p) (unrooted results are returned uncleaned: only their unrootedness matters)"""
+    x = p if g == "" else (g if p == "" else g + "/" + p)
+    c = _clean(x)
+    return x if c is None else "/" + "/".join(c)
+
+
+def _flat(case):
+    """the (method, path) list a case registers, in registration order"""
+    if case.get("kind") != "server":
+        return case["regs"]
+    out = []
+    for g in case["groups"]:
+        for m, p in g["routes"]:
+            out.append([m, p if g["prefix"] is None else _join(g["prefix"], p)])
+    return out
+
+
 def _in_scope(regs):
     t = _accepted(regs)
     return all(m1 != m2 or _compat(p1, p2) for (m1, p1) in t for (m2, p2) in t)
@@ -87,7 +105,7 @@ class C09(Property):
 
     # ---- generation ---------------------------------------------------------
     def corpus(self):
-        return [
+        return self._server_corpus() + [
             {"nf": False, "na": False,
              "regs": [["GET", "/a/:x"], ["GET", "/a/b"], ["POST", "/a//b/"], ["FOO", "/a"], ["GET", "a"], ["GET", "/a/./b"],
                       ["GET", "/:x"], ["GET", "/"], ["PUT", "/:y"], ["GET", "/:x/:x"], ["GET", ""]],
@@ -108,6 +126,28 @@ class C09(Property):
             # outside the side condition: two variable names at one position
             {"nf": False, "na": False, "regs": [["GET", "/:x/a"], ["GET", "/:y/b"], ["GET", "/:x"], ["GET", "/:y"]],
              "reqs": [["GET", "/1/a"], ["GET", "/1/b"], ["GET", "/1"], ["GET", "/"]]},
+        ]
+
+    def _server_corpus(self):
+        def g(prefix, routes, mw=False, opts=False, single=False):
+            return {"prefix": prefix, "mw": mw, "opts": opts, "single": single, "routes": routes}
+        base = {"kind": "server", "regs": [], "nf": False, "na": False, "cors": False, "use": False}
+        return [
+            dict(base, use=True,
+                 groups=[g("/api", [["GET", "/a/:x"], ["GET", "b"], ["POST", "/a/b/"]], mw=True, opts=True),
+                         g(None, [["GET", "/a/:x"], ["OPTIONS", "/o"]], single=True),
+                         g("/api/", [["PUT", "//c/../d"], ["GET", ""]], mw=True)],
+                 reqs=[["GET", "/api/a/1"], ["GET", "/api/b"], ["GET", "/a/7"], ["PUT", "/api/d"], ["GET", "/api"],
+                       ["POST", "/api/a/1"], ["DELETE", "/zz"], ["OPTIONS", "/o"], ["OPTIONS", "/api/b"]]),
+            dict(base, cors=True, groups=[g("/v1", [["GET", "/a"], ["OPTIONS", "/o"]])],
+                 reqs=[["GET", "/v1/a"], ["POST", "/v1/a"], ["OPTIONS", "/v1/o"], ["OPTIONS", "/v1/a"], ["OPTIONS", "/zz"], ["GET", "/zz"]]),
+            dict(base, groups=[g("/v1", [["GET", "/a"], ["GET", "/b"]]), g("/v1/", [["GET", "a/"]])], reqs=[["GET", "/v1/a"]]),
+            dict(base, groups=[g("v1", [["GET", "/a"]])], reqs=[["GET", "/v1/a"]]),
+            dict(base, groups=[g("/v1", [["FOO", "/a"]])], reqs=[["GET", "/v1/a"]]),
+            dict(base, nf=True, na=True, groups=[g("", [["GET", "/a"]])], reqs=[["GET", "/a"], ["PUT", "/a"], ["GET", "/b"]]),
+            # two groups, same paths, different prefixes: the prefix decides
+            dict(base, groups=[g("/x", [["GET", "/p/:id"], ["POST", "/p"]], mw=True), g("/y", [["GET", "/p/:id"], ["PUT", "/p"]], mw=True)],
+                 reqs=[["GET", "/x/p/1"], ["GET", "/y/p/2"], ["PUT", "/x/p"], ["POST", "/y/p"], ["GET", "/p/1"], ["GET", "/x/x/p/1"]]),
         ]
 
     def _pattern(self, rng, names, wfbias):
@@ -230,9 +270,69 @@ class C09(Property):
                 reqs.append([m, self._reqpath(rng, regs)])
             c = rng.random()
             cases.append({"nf": c < 0.1, "na": 0.05 < c < 0.15, "regs": regs, "reqs": reqs})
+        nserver = max(1, n // 4)
+        for _ in range(nserver):
+            cases.append(self._server_case(rng))
         if tier == "thorough":
             cases += self._exhaustive()
         return cases
+
+    PREFIXES = [None, None, "", "/", "/api", "/api", "/api/", "/v1/a", "/a", "/b", "/:x", "/a/:y", "/api/../a", "api"]
+
+    def _server_case(self, rng):
+        regs, base = self._table(rng)
+        good = rng.random() < 0.8
+        if good:   # mostly tables that Start can bind: no bad methods / unrooted patterns / duplicates
+            regs = [r for r in regs if r[0] in METHODS]
+        ngroups = rng.randint(1, 3)
+        groups = [{"prefix": rng.choice(self.PREFIXES), "mw": rng.random() < 0.4, "opts": rng.random() < 0.3,
+                   "single": rng.random() < 0.2, "routes": []} for _ in range(ngroups)]
+        if good:
+            for g in groups:
+                if g["prefix"] == "api":
+                    g["prefix"] = "/api"
+        for r in regs:
+            g = rng.choice(groups)
+            p = r[1]
+            if good and not p.startswith("/") and (g["prefix"] in (None, "")):
+                p = "/" + p
+            g["routes"].append([r[0], p])
+        groups = [g for g in groups if g["routes"]] or [dict(groups[0], routes=[["GET", "/a"]])]
+        if rng.random() < 0.15:   # OPTIONS / HEAD routes (valid methods; OPTIONS interacts with CORS)
+            groups[0]["routes"].append([rng.choice(["OPTIONS", "HEAD"]), rng.choice(["/o", "/a", "/:x"])])
+        case = {"kind": "server", "regs": [], "groups": groups, "cors": False, "use": rng.random() < 0.3, "nf": False, "na": False}
+        if good:
+            # drop later duplicates (after prefixing and cleaning) so that Start succeeds
+            seen = set()
+            for g in groups:
+                keep = []
+                for m, p0 in g["routes"]:
+                    p = p0 if g["prefix"] is None else _join(g["prefix"], p0)
+                    c = _clean(p)
+                    key = (m, tuple(c) if c is not None else None)
+                    if c is None or key in seen:
+                        continue
+                    seen.add(key)
+                    keep.append([m, p0])
+                g["routes"] = keep
+            case["groups"] = [g for g in groups if g["routes"]] or [dict(groups[0], routes=[["GET", "/a"]])]
+        c = rng.random()
+        if c < 0.2:
+            case["cors"] = True
+        elif c < 0.4:
+            case["nf"], case["na"] = rng.random() < 0.6, rng.random() < 0.6
+        flat = _flat(case)
+        reqs = []
+        for _ in range(rng.randint(4, 12)):
+            m = rng.choice(METHODS)
+            r = rng.random()
+            if r < 0.08:
+                m = rng.choice(["FOO", "HEAD"])
+            elif r < 0.2:
+                m = "OPTIONS"
+            reqs.append([m, self._reqpath(rng, flat)])
+        case["reqs"] = reqs
+        return case
 
     def _exhaustive(self):
         """every table of two GET routes (+ one POST route) over patterns of depth <= 2 on {a,b,:x,:y},
@@ -260,7 +360,8 @@ class C09(Property):
         for r in res:
             if r.get("err"):
                 raise ExecError("c09 executor: case %s: %s" % (r.get("id"), r["err"]))
-        return [{"regerr": r["regerr"], "pclean": r["pclean"], "res": r["res"]} for r in res]
+        return [{"regerr": r["regerr"], "pclean": r["pclean"], "res": r["res"],
+                 "start": r.get("start", 0), "routes": r.get("routes") or []} for r in res]
 
     def _resp(self, r):
         k = r["k"]
@@ -277,19 +378,46 @@ class C09(Property):
         # panic / unclassifiable response: nothing the model or the property allows
         return "(RHandler (-1) [])"
 
+    def _sresp(self, r):
+        if r["k"] == "cors204":
+            return "SCors204"
+        return "(SResp %s)" % self._resp(r)
+
+    def _server_case_term(self, case, obs):
+        groups = []
+        h = 0
+        for g in case["groups"]:
+            rs = []
+            for m, p in g["routes"]:
+                rs.append("mkReg %s %s %s" % (cstr(m), cstr(p), cz(h)))
+                h += 1
+            pre = "None" if g["prefix"] is None else "(Some %s)" % cstr(g["prefix"])
+            groups.append("mkGroup %s %s %s" % (pre, cbool(g["mw"]), clist(rs)))
+        start = "ObsStarted" if obs["start"] == 0 else "(ObsFailed %s)" % REGERR.get(obs["start"], "RegOther")
+        routes = clist(["(%s, %s)" % (cstr(m), cstr(p)) for m, p in obs["routes"]])
+        reqs = clist(["mkSReq %s %s %s %s" % (cstr(m), cstr(p), self._sresp(r), clist([cz(t) for t in r.get("mws") or []]))
+                      for (m, p), r in zip(case["reqs"], obs["res"])])
+        return "CServer (mkSCase %s %s %s %s %s %s %s %s)" % (
+            cbool(case["nf"]), cbool(case["na"]), cbool(case["cors"]), cbool(case["use"]),
+            clist(groups), start, routes, reqs)
+
     def coq_case(self, case, obs):
+        if case.get("kind") == "server":
+            return self._server_case_term(case, obs)
         regs = clist(["mkReg %s %s %s" % (cstr(m), cstr(p), cz(i)) for i, (m, p) in enumerate(case["regs"])])
         regobs = clist([REGERR.get(e, "RegOther") for e in obs["regerr"]])
         pclean = clist([cstr(s) for s in obs["pclean"]])
         reqs = clist(["mkReq %s %s %s %s" % (cstr(m), cstr(p), cstr(r["clean"]), self._resp(r))
                       for (m, p), r in zip(case["reqs"], obs["res"])])
-        return "mkCase %s %s %s %s %s %s" % (cbool(case["nf"]), cbool(case["na"]), regs, regobs, pclean, reqs)
+        return "CRouter (mkCase %s %s %s %s %s %s)" % (cbool(case["nf"]), cbool(case["na"]), regs, regobs, pclean, reqs)
 
     # ---- statistics -------------------------------------------------------------
     def nontrivial(self, case, obs):
-        if not _in_scope(case["regs"]):
+        if not _in_scope(_flat(case)):
             return False
-        t = _accepted(case["regs"])
+        if case.get("kind") == "server" and obs["start"] != 0:
+            return False
+        t = _accepted(_flat(case))
         compete = False
         for (m1, p1) in t:
             for (m2, p2) in t:
@@ -302,8 +430,14 @@ class C09(Property):
         return compete and any(r["k"] == "h" and r["vars"] for r in obs["res"]) and ("na" in ks or "nf" in ks)
 
     def features(self, case, obs):
-        fs = ["in_scope" if _in_scope(case["regs"]) else "outside_side_condition",
-              "routes=%d" % len(_accepted(case["regs"]))]
+        fs = ["in_scope" if _in_scope(_flat(case)) else "outside_side_condition",
+              "routes=%d" % len(_accepted(_flat(case))), "kind_" + (case.get("kind") or "router")]
+        if case.get("kind") == "server":
+            fs.append("start_" + REGERR.get(obs["start"], "RegOther"))
+            fs += [k for k in ("cors", "use", "nf", "na") if case[k]]
+            fs.append("groups=%d" % len(case["groups"]))
+            if any(g["prefix"] for g in case["groups"]):
+                fs.append("has_prefix")
         fs += ["reg_" + REGERR.get(e, "RegOther") for e in sorted(set(obs["regerr"]))]
         fs += ["resp_" + k for k in sorted(set(r["k"] for r in obs["res"]))]
         if any(_clean(p) is not None and "/" + "/".join(_clean(p)) != p for _, p in case["reqs"]):
@@ -312,7 +446,33 @@ class C09(Property):
             fs.append("vars>=2")
         return fs
 
+    def _shrink_server(self, case):
+        res = []
+        reqs, groups = case["reqs"], case["groups"]
+        for i in range(len(reqs)):
+            if len(reqs) > 1:
+                res.append(dict(case, reqs=reqs[:i] + reqs[i + 1:]))
+        if len(reqs) > 2:
+            for i in range(len(reqs)):
+                res.append(dict(case, reqs=[reqs[i]]))
+        for i in range(len(groups)):
+            if len(groups) > 1:
+                res.append(dict(case, groups=groups[:i] + groups[i + 1:]))
+            g = groups[i]
+            for j in range(len(g["routes"])):
+                if len(g["routes"]) > 1:
+                    res.append(dict(case, groups=groups[:i] + [dict(g, routes=g["routes"][:j] + g["routes"][j + 1:])] + groups[i + 1:]))
+            for k in ("opts", "single"):
+                if g[k]:
+                    res.append(dict(case, groups=groups[:i] + [dict(g, **{k: False})] + groups[i + 1:]))
+        for k in ("use", "nf", "na"):
+            if case[k]:
+                res.append(dict(case, **{k: False}))
+        return res[:300]
+
     def shrink_candidates(self, case):
+        if case.get("kind") == "server":
+            return self._shrink_server(case)
         res = []
         regs, reqs = case["regs"], case["reqs"]
         for i in range(len(reqs)):
